@@ -180,6 +180,15 @@ void Search::stop()
     stop_search = true;
 }
 
+bool Search::allows_root_move(Move move) const
+{
+    if (limits.searchmovesnum == 0) return true;
+
+    const Move* begin = limits.searchmoves;
+    const Move* end = limits.searchmoves + limits.searchmovesnum;
+    return std::find(begin, end, move) != end;
+}
+
 void Search::go()
 {
 #ifdef CHESSPP_VERIF
